@@ -70,7 +70,8 @@ def obligations(tier, ctx):
         if tier == "quick" and key.split(".")[-1] not in pick_q:
             continue
         short = key.split(".")[-2][:10] + "_" + key.split(".")[-1]
-        for be in (("P",) if (tier == "quick" and key.split(".")[-1] != "CompletionResult") else ("P", "F")):
+        # (thorough: the pure-Python side only for the models of the quick pick - 2-3 s per list item under tracing)
+        for be in (("P",) if ((tier == "quick" and key.split(".")[-1] != "CompletionResult") or (tier != "quick" and key.split(".")[-1] not in pick_q)) else ("P", "F")):
             # the pure-Python backend under the engine's tracing costs 2-3 s per list item (it re-reads the type hints
             # of every nested model): small counts there, and only one model in the quick tier
             lim = (62 if be == "P" else 32) if tier == "quick" else (410 if be == "P" else 32)
@@ -80,7 +81,7 @@ def obligations(tier, ctx):
         if tier == "quick" and key.split(".")[-1] not in ("TextContent", "Tool", "InitializeResult"):
             continue
         short = key.split(".")[-2][:10] + "_" + key.split(".")[-1]
-        for be in (("P",) if (tier == "quick" and key.split(".")[-1] != "TextContent") else ("P", "F")):
+        for be in (("P",) if ((tier == "quick" and key.split(".")[-1] != "TextContent") or (tier != "quick" and key.split(".")[-1] not in ("TextContent", "Tool", "InitializeResult", "CallToolResult", "Resource", "PromptMessage"))) else ("P", "F")):
             slim = consts.MAX_SIZE if be == "P" else 5000
             for pat in ((5,) if tier == "quick" else (5, 15)):
                 obs.append(Ob(name=f"bigstr_{short}_{be}_p{pat}", params=[("k", "int")], pre=[f"0 <= k < {len(consts.size_cases(slim, extra=ENVS))}"], call=f"H.lossless_big({key!r}, k, 0, {pat}, {slim})", backend=be, timeout=1200,
